@@ -29,7 +29,7 @@ BOUNDS = {
     "quick": "direct n<=5; windows n<=5; end-to-end R=3, all 81 maps x all orderings x all masks",
     "thorough": "direct n<=6 (+n=7 uniform weights); end-to-end R<=4",
 }
-FLAVOURS = ["obj1", "obj2", "con"]
+FLAVOURS = ["obj1", "obj2", "obj2_neg", "con"]
 
 
 def weight_vectors(n: int) -> dict[str, list[float]]:
@@ -55,9 +55,9 @@ def build_config(flavour: str, n: int, weights: list[float], first: int, last: i
         config["nonlinear_constraints"] = {"lower_bounds": [0.0], "upper_bounds": [np.inf], "realization_filters": [0]}
         config["realization_filters"] = [{"method": "sort-constraint", "options": {"sort": 0, "first": first, "last": last}}]
     else:
-        sort = [0] if flavour == "obj1" else [0, 1]
+        sort = [0] if flavour == "obj1" else ([1] if flavour == "obj2_neg" else [0, 1])
         config["objectives"] = {
-            "weights": [1.0] if flavour == "obj1" else [0.25, 0.75],
+            "weights": [1.0] if flavour == "obj1" else ([2.0, -1.0] if flavour == "obj2_neg" else [0.25, 0.75]),
             "realization_filters": [0] if flavour == "obj1" else [0, 0],
         }
         config["realization_filters"] = [{"method": "sort-objective", "options": {"sort": sort, "first": first, "last": last}}]
@@ -72,6 +72,9 @@ def make_inputs(flavour: str, keys: np.ndarray, failed: np.ndarray) -> tuple[np.
     elif flavour == "obj2":
         c = 1.0 - 0.5 * idx
         objectives, constraints = np.stack([keys - 3 * c, keys + c], axis=1), None
+    elif flavour == "obj2_neg":
+        # objective weights (2,-1), sort key = objective 1 only: weighted value -1 * (-keys) = keys
+        objectives, constraints = np.stack([idx * 0.5, -keys], axis=1), None
     else:
         objectives, constraints = (-(idx * 0.25))[:, None].copy(), keys[:, None].copy()
     objectives[failed, :] = np.nan
